@@ -223,6 +223,44 @@ Example C19_xls_nonvacuous :
   BiffSst.legal_fstring (utf16_encode XlsText_proofs.ex_text) true [(2%nat, true); (1%nat, false)] = true.
 Proof. exact XlsText_proofs.example_text_xls. Qed.
 
+(* ---------- xls (BIFF8), a whole workbook under ANY CodePage record ----------
+   [cp] = the CodePage record of the globals ([MS-XLS] 2.4.52): any 16-bit value (1200 Excel, 1252
+   JExcelApi — tests/sheet_name_parsing.xls —, 932, 65001, values unknown to every decoder table)
+   or None (no record).  BIFF8 text is Unicode whatever the record says; since the repair of
+   audit-2 finding XLS-1 the reader agrees: a sheet name and a text stored as LABEL, as a formula's
+   STRING result (any legal fragmentation) or as a shared string (any legal CONTINUE layout) read
+   back as exactly that text through C12's reduced parse_workbook. *)
+Theorem C19_text_survives_xls_workbook : forall cp strs lay shs,
+  BiffSst.legal_workbook cp strs lay shs = true ->
+  exists res, BiffSst.wb_strings (BiffSst.workbook_stream cp strs lay shs) = Ok res /\
+    length res = length shs /\
+    forall k sh, nth_error shs k = Some sh ->
+      exists nm cells, nth_error res k = Some (nm, cells) /\
+        (forall n, Forall scalar n -> Forall (fun c => c <> 0) n ->
+                   BiffSst.sh_name sh = utf16_encode n -> nm = n) /\
+        forall s, Forall scalar s ->
+          (forall r c hb, In (BiffSst.CLabel r c hb (utf16_encode s)) (BiffSst.sh_cells sh) ->
+                          In (r, c, s) cells)
+          /\ (forall r c hb cuts,
+                In (BiffSst.CFString r c hb (utf16_encode s) cuts) (BiffSst.sh_cells sh) ->
+                In (r, c, s) cells)
+          /\ (forall r c i, In (BiffSst.CSst r c i) (BiffSst.sh_cells sh) ->
+                nth_error strs (N.to_nat i) = Some (utf16_encode s) -> s <> [] ->
+                In (r, c, s) cells).
+Proof. exact XlsText_proofs.text_survives_xls_workbook. Qed.
+
+Example C19_xls_workbook_nonvacuous :
+  Forall (fun cp =>
+            BiffSst.legal_workbook cp XlsText_proofs.ex_wb_strs XlsText_proofs.ex_wb_lay
+                                   XlsText_proofs.ex_wb_sheets = true /\
+            BiffSst.wb_strings (BiffSst.workbook_stream cp XlsText_proofs.ex_wb_strs
+                                  XlsText_proofs.ex_wb_lay XlsText_proofs.ex_wb_sheets) =
+            Ok [(XlsText_proofs.ex_text,
+                 [(0, 0, XlsText_proofs.ex_text); (1, 0, XlsText_proofs.ex_text);
+                  (2, 0, XlsText_proofs.ex_text)])])
+         [Some 1252; Some 1200; Some 932; Some 65001; Some 54321; None].
+Proof. exact XlsText_proofs.example_text_xls_workbook. Qed.
+
 Theorem C19_decode_to_8bit : forall s rest, Forall (fun c => c < 256) s ->
   decode_to_utf16 false (s ++ rest) (N.of_nat (length s)) =
   (s, N.of_nat (length s), N.of_nat (length s)).
@@ -479,6 +517,8 @@ Print Assumptions C19_utf16_decode_scalars.
 Print Assumptions C19_text_survives_utf16.
 Print Assumptions C19_text_survives_xls.
 Print Assumptions C19_xls_nonvacuous.
+Print Assumptions C19_text_survives_xls_workbook.
+Print Assumptions C19_xls_workbook_nonvacuous.
 Print Assumptions C19_decode_to_8bit.
 Print Assumptions C19_decode_to_16bit.
 Print Assumptions C19_xstring_boundaries.
